@@ -120,7 +120,7 @@ Record trec := mkT {
   t_rem : list ch         (* raced items still to be removed *)
 }.
 
-Inductive kpc := KCheck | KAuth | KFinal | KTrigLock | KTrigCheck | KEnter | KHandler | KSet.
+Inductive kpc := KCheck | KAuth | KShut | KFinal | KTrigLock | KTrigCheck | KEnter | KHandler | KSet.
 
 Inductive thread :=
 | TAtt (a : att) | TUns (u : urec) | TCls (k : crec) | TTck (t : trec) | TCon (pc : kpc) | TJob (c : ch).
@@ -548,7 +548,10 @@ Definition con_step (s : st) (t : tid) (pc : kpc) (b : bool) : option st :=
   | KCheck => if is_closed (status s) || authed s then Some (thr_del t s) else go KAuth s
   | KAuth =>
       if is_closed (status s) then Some (thr_del t s)
-      else go KFinal (set_reg true (set_authed true (if reg s then s else set_gconn (gconn s + 1)%Z s)))
+      else go KShut (set_reg true (set_authed true (if reg s then s else set_gconn (gconn s + 1)%Z s)))
+  (* after registering: Node.Shutdown already under way => connectCmd returns DisconnectShutdown and
+     the command dispatcher closes the connection (shutdownCh is closed before the hub snapshot) *)
+  | KShut => if shut s then Some (thr_del t (spawn_int new_close s)) else go KFinal s
   | KFinal => if is_closed (status s) then Some (thr_del t s) else go KTrigLock s
   | KTrigLock => if cmu s then None else go KTrigCheck (set_cmu true s)
   | KTrigCheck => if is_connecting (status s) then go KEnter s else Some (thr_del t (set_cmu false s))
